@@ -74,7 +74,7 @@ class Firing:
         form, a Reduce over a variable absent from its argument) an un-mangled `Pseudo` term stands for it."""
         try:
             return reflect.interpret(self.cls, *self.args)
-        except (AssertionError, KeyError):
+        except (AssertionError, KeyError, NotImplementedError):
             p = pseudo_reflect(self.cls, self.args)
             if p is None:
                 raise
@@ -104,6 +104,17 @@ def pseudo_reflect(cls, args):
         names = {v.name for v in rvars}
         inputs = OrderedDict((k, d) for k, d in arg.inputs.items() if k not in names)
         return Pseudo("reduce", args, inputs, {v.name: v.output for v in rvars}, op=op, arg=arg, reduced_vars=rvars)
+    if name == "Align" and len(args) == 2 and isinstance(args[0], Funsor):
+        # the class refuses names that are not exactly the inputs; an Align means its argument
+        arg = args[0]
+        return Pseudo("same", args, OrderedDict(arg.inputs), {}, arg=arg)
+    if name == "Binary" and len(args) == 3 and type(args[1]).__name__ == "Tuple" and isinstance(args[2], Number) \
+            and ser_opname(args[0]) == "getitem":
+        # the lazy term Tuple[...][Number] has no statically inferable domain (reflect raises); it means the component
+        tup, k = args[1], int(args[2].data)
+        if 0 <= k < len(tup.args):
+            return Pseudo("same", args, OrderedDict(tup.inputs), {}, arg=tup.args[k])
+        return None
     if name == "Independent" and len(args) == 4:
         fn, reals_var, bint_var, diag_var = args
         # the class refuses a `fn` without the diagonal input; its meaning fn(x_i = x[i]).reduce(add, i) is then
@@ -383,6 +394,8 @@ def _den(t, env):
             off = int(t.op.defaults.get("offset", 0))
             return a[(slice(None),) * off + (int(b),)]
         return np.asarray(t.op(a, b))
+    if isinstance(t, Pseudo) and t.kind == "same":
+        return _den(t.arg, env)
     if isinstance(t, Reduce) or (isinstance(t, Pseudo) and t.kind == "reduce"):
         vals = [_den(t.arg, {**env, **a}) for a in _assignments(t.reduced_vars)]
         return np.asarray(_fold(t.op, vals))
